@@ -86,6 +86,35 @@ example : PlainVal toySpec "sint8".toList (.array [.int .s8 (-128), .null, .int 
 theorem C01_path_roundtrip (C : DecCodec) (S : Spec) (hC : CodecOk C S) (p : Path) (h : SendablePath S p) :
     decPathAny C (encPath C.toCodec p) = .ok (wdPath C.toCodec p) := rt_path C S hC p h
 
+/-- the options `ignore_host` / `ignore_namespace` of `tocimxml()` act on the path they are called on only:
+    the element written is that of the same path with host / namespace removed at the top level -
+    reference keybindings inside it keep their own host and namespace, at every depth -/
+theorem C01_path_options_top_level_only (C : Codec) (ih ins : Bool) (p : Path) :
+    encPathOpt C ih ins p = encPath C (p.stripTop ih ins) := by
+  cases p with
+  | inst cls host ns keys =>
+    cases ns <;> cases host <;> cases ih <;> cases ins <;> simp [encPathOpt, encPath, Path.stripTop]
+  | cls cls host ns =>
+    cases ns <;> cases host <;> cases ih <;> cases ins <;> simp [encPathOpt, encPath, Path.stripTop]
+
+theorem C01_path_options_default (C : Codec) (p : Path) : encPathOpt C false false p = encPath C p := by
+  rw [C01_path_options_top_level_only]
+  cases p <;> simp [Path.stripTop]
+
+/-- … and what the receiver decodes is exactly that stripped path (reference keys intact) -/
+theorem C01_path_options_roundtrip (C : DecCodec) (S : Spec) (hC : CodecOk C S) (ih ins : Bool) (p : Path)
+    (h : SendablePath S p) :
+    decPathAny C (encPathOpt C.toCodec ih ins p) = .ok (wdPath C.toCodec (p.stripTop ih ins)) := by
+  rw [C01_path_options_top_level_only]
+  apply C01_path_roundtrip C S hC
+  cases p with
+  | inst cls host ns keys =>
+    obtain ⟨h1, h2, h3⟩ := h
+    refine ⟨h1, h2, ?_⟩
+    cases ins <;> simp [NsOk] <;> exact h3
+  | cls cls host ns =>
+    cases ins <;> simp [Path.stripTop, SendablePath, NsOk] <;> exact h
+
 theorem C01_qualifier_roundtrip (C : DecCodec) (S : Spec) (hC : CodecOk C S) (q : Qual) (h : SendableQual S q) :
     decQualifier C (encQual C.toCodec q) = .ok (wdQual C.toCodec q) := rt_qual C S hC q h
 
